@@ -6,11 +6,13 @@ annotation A_i), with exception parity."""
 from __future__ import annotations
 
 import json
+import typing as t
 
 from vlib import universe
 from vlib.cond import Cond
 from vlib.fixtures import mod_a, mod_b, naming
-from vlib.prelude import SYMBOLIC, NoTracing, attempt, deep_realize, pick, reached
+from vlib.fixtures import models as M
+from vlib.prelude import SYMBOLIC, Chooser, NoTracing, attempt, deep_realize, pick, reached
 from vlib.shapes import (Bool, DictOf, FixedTuple, Int, JVal, ListOf, Map, Opt, Seq, Src, Str, Struct, Wrapped,
                          params_for)
 
@@ -333,6 +335,110 @@ def _composites(tier, seed):
     return out
 
 
+class _KeyNT(t.NamedTuple):
+    a: int
+    b: str
+
+
+def make_keys(timeout):
+    """Mapping keys are converted by the key type's own routine - on every call of a long-lived routine: raw keys that are
+    equal but distinct (True / 1 / 1.0, 0.0 / -0.0, Decimal('1.0') / Decimal('1.00')) in consecutive calls, and composite
+    key types whose raw form (a list / dict from a pairs source) is not hashable."""
+    import decimal
+
+    from typelib import marshals, unmarshals
+
+    D = decimal.Decimal
+    raw_pairs = [(True, 1.0), (1.0, True), (1, True), (True, 1), (0.0, -0.0), (-0.0, 0.0), (D("1.0"), D("1.00")), (D("1.00"), D("1.0")), (1, 1.0)]
+    u_targets = [dict[str, int], dict[float, int], dict[D, int], t.Mapping[str, int]]
+    m_targets = [dict[D, int], dict[float, int], t.Mapping[D, int]]
+    composite = [(dict[tuple[int, int], str], [([1, "2"], "a")]), (dict[frozenset[int], int], [([1, 2], "1")]),
+                 (dict[_KeyNT, int], [({"a": "1", "b": 2}, 3)]), (dict[tuple[int, ...], int], [(["1", 2, 3], 4)])]
+
+    def body(c0: int, c1: int, c2: int):
+        from vlib import caches
+
+        ch = Chooser((c0, c1, c2))
+        with NoTracing():
+            caches.clear_all()
+            mode = ch.pick(3)
+            reached()
+            if mode == 2:
+                T, src = ch.choose(composite)
+                KT, VT = t.get_args(T)
+                got = attempt(unmarshals.unmarshaller(T), src)
+                want = attempt(lambda: {unmarshals.unmarshaller(KT)(k): unmarshals.unmarshaller(VT)(v) for k, v in src})
+                if got[0] != want[0] or (got[0] and not deep_same(got[1], want[1])):
+                    return ("composite_key_routed_differently", "keys:unmarshal", _d(T, src, got, want))
+                return None
+            a, b = ch.choose(raw_pairs)
+            if mode == 0:
+                T = ch.choose(u_targets)
+                KT, VT = t.get_args(T)
+                R = unmarshals.unmarshaller(T)
+                attempt(R, [(a, "1")])
+                got = attempt(R, [(b, "2")])
+                want = attempt(lambda: {unmarshals.unmarshaller(KT)(b): unmarshals.unmarshaller(VT)("2")})
+            else:
+                T = ch.choose(m_targets)
+                KT, VT = t.get_args(T)
+                ok_a, ka = attempt(KT, a)
+                ok_b, kb = attempt(KT, b)
+                if not (ok_a and ok_b):
+                    return None
+                R = marshals.marshaller(T)
+                attempt(R, {ka: 1})
+                got = attempt(R, {kb: 2})
+                want = attempt(lambda: {marshals.marshaller(KT)(kb): 2})
+            if got[0] != want[0] or (got[0] and not (deep_same(got[1], want[1]) and [repr(k) for k in got[1]] == [repr(k) for k in want[1]])):
+                return ("equal_key_served_from_earlier_call", "keys:" + ("unmarshal" if mode == 0 else "marshal"), _d(T, a, b, got, want))
+        return None
+
+    return Cond("keys/equal_but_distinct", [("c0", int), ("c1", int), ("c2", int)], body, mode="E3", timeout=timeout)
+
+
+def make_hints_history(timeout):
+    """The member routines of a class are the same whichever routine of that class was built (and used) first: a plain
+    class whose hints come from the string annotations of its constructor, first marshalled / unmarshalled, then reached
+    through a newly built composite."""
+    import datetime
+
+    from typelib import marshals, unmarshals
+
+    I = M.InitOnly
+    wire = {"id": "1", "placed": "2020-01-02", "tags": ["3"]}
+    inst = lambda: I(1, datetime.date(2020, 1, 2), [3])  # noqa: E731
+    plain = {"id": 1, "placed": "2020-01-02", "tags": [3]}
+    firsts = [lambda: marshals.marshaller(I)(inst()), lambda: unmarshals.unmarshaller(I)(wire), lambda: None]
+    follow = [
+        ("unmarshal(list[I])", lambda: unmarshals.unmarshaller(list[I])([wire]), lambda: [inst()]),
+        ("unmarshal(dict[str,I])", lambda: unmarshals.unmarshaller(dict[str, I])({"k": wire}), lambda: {"k": inst()}),
+        ("unmarshal(I)", lambda: unmarshals.unmarshaller(I)(wire), inst),
+        ("marshal(list[I])", lambda: marshals.marshaller(list[I])([inst()]), lambda: [plain]),
+        ("marshal(tuple[I,int])", lambda: marshals.marshaller(tuple[I, int])((inst(), 1)), lambda: [plain, 1]),
+        ("marshal(I)", lambda: marshals.marshaller(I)(inst()), lambda: plain),
+    ]
+
+    def body(c0: int, c1: int, c2: int, c3: int):
+        from vlib import caches
+
+        ch = Chooser((c0, c1, c2, c3))
+        with NoTracing():
+            caches.clear_all()
+            for _ in range(1 + ch.pick(2)):
+                attempt(ch.choose(firsts))
+            name, fn, want = ch.choose(follow)
+            got = attempt(fn)
+            reached()
+            if not got[0]:
+                return ("member_routine_lost_after_history:" + type(got[1]).__name__, name, _d(got[1]))
+            if not deep_same(got[1], want()):
+                return ("member_routed_differently_after_history", name, _d(got[1], want()))
+        return None
+
+    return Cond("hints/after_first_use", [("c0", int), ("c1", int), ("c2", int), ("c3", int)], body, mode="E3", timeout=timeout)
+
+
 def conditions(tier, seed):
     to = 20.0 if tier == "quick" else 120.0
     jd = 0 if tier == "quick" else 1
@@ -341,4 +447,6 @@ def conditions(tier, seed):
     out += [make_m(s, to) for s in comps]
     out += [make_src(s, to) for s in comps if isinstance(_core(s), Struct) and _core(s).kind != "typeddict"
             and len(members(s)) <= 4]
+    out.append(make_keys(to))
+    out.append(make_hints_history(to))
     return out
